@@ -66,7 +66,13 @@ type freshInfo struct {
 	p       *core.Prog
 	getters map[*ssa.Function]bool // functions returning (*sync.Pool).Get results
 	fresh   map[*ssa.Function]bool // result 0 is always fresh / singleton / nil
+	freshAt map[freshSlot]bool     // the same for a later result of value type (a helper returning (x, temporary, err))
 	why     map[*ssa.Function]string
+}
+
+type freshSlot struct {
+	fn  *ssa.Function
+	idx int
 }
 
 var freshCache = map[*core.Prog]*freshInfo{}
@@ -94,7 +100,7 @@ func (fi *freshInfo) leafFresh(o ssa.Value) (bool, string) {
 		return false, "call of " + callDesc(fi.p, x) + " (not fresh-returning)"
 	case *ssa.Extract:
 		if c, ok := x.Tuple.(*ssa.Call); ok {
-			if f := core.StaticCallee(c); f != nil && fi.fresh[f] && x.Index == 0 {
+			if f := core.StaticCallee(c); f != nil && (x.Index == 0 && fi.fresh[f] || x.Index > 0 && fi.freshAt[freshSlot{f, x.Index}]) {
 				return true, "fresh call " + fi.p.FnRef(f)
 			}
 		}
@@ -123,11 +129,18 @@ func freshness(p *core.Prog) *freshInfo {
 	if fi, ok := freshCache[p]; ok {
 		return fi
 	}
-	fi := &freshInfo{p: p, getters: map[*ssa.Function]bool{}, fresh: map[*ssa.Function]bool{}, why: map[*ssa.Function]string{}}
+	fi := &freshInfo{p: p, getters: map[*ssa.Function]bool{}, fresh: map[*ssa.Function]bool{}, freshAt: map[freshSlot]bool{}, why: map[*ssa.Function]string{}}
 	// candidates: csvq functions whose first result is a value type
 	var cands []*ssa.Function
+	var later []freshSlot
 	for _, fn := range p.SrcFuncs() {
 		res := fn.Signature.Results()
+		for i := 1; i < res.Len(); i++ {
+			if isPrimaryLike(res.At(i).Type()) {
+				later = append(later, freshSlot{fn, i})
+				fi.freshAt[freshSlot{fn, i}] = true
+			}
+		}
 		if res.Len() == 0 || !isPrimaryLike(res.At(0).Type()) {
 			continue
 		}
@@ -144,6 +157,18 @@ func freshness(p *core.Prog) *freshInfo {
 				if ok, why := fi.leafFresh(o); !ok {
 					fi.fresh[fn] = false
 					fi.why[fn] = why
+					changed = true
+					break
+				}
+			}
+		}
+		for _, sl := range later {
+			if !fi.freshAt[sl] {
+				continue
+			}
+			for _, o := range core.ReturnedValues(sl.fn, sl.idx) {
+				if ok, _ := fi.leafFresh(o); !ok {
+					fi.freshAt[sl] = false
 					changed = true
 					break
 				}
